@@ -68,7 +68,21 @@ pub struct World {
     pub pty_master: Option<std::fs::File>,
     /// one ProgressStyle object per template name, handed out as clones and kept alive, the way applications share a style between bars
     pub styles: BTreeMap<String, ProgressStyle>,
+    /// the process's own stdout / stderr were replaced (by a pipe or by the slave side of a pty): targets `stderr_*`, `stdout_*`, `default_*`
+    pub std_redirected: bool,
 }
+
+/// Is this target name one of the process's own streams (`ProgressDrawTarget::stderr()`, `stdout()`, or the default target of
+/// `ProgressBar::new` / `new_spinner` / `no_length` / `MultiProgress::new`), and over what: a pipe (not a tty) or a pty?
+pub fn std_target(t: &str) -> Option<(&str, bool)> {
+    for k in ["stderr", "stdout", "default"] {
+        if t == format!("{k}_pipe") { return Some((k, false)); }
+        if t == format!("{k}_pty") { return Some((k, true)); }
+    }
+    None
+}
+pub fn target_hidden(t: &str) -> bool { t == "hidden" || t == "pipe" || matches!(std_target(t), Some((_, false))) }
+pub fn target_pty(t: &str) -> bool { t == "pty" || matches!(std_target(t), Some((_, true))) }
 
 /// A console::Term over the slave side of a pty (so `is_term()` is true and the size comes from the window size we set); the
 /// master side is read back after every operation and decoded into the same call alphabet the spy terminal records.
@@ -149,7 +163,49 @@ fn pipe_term() -> (console::Term, std::fs::File) {
 }
 
 impl World {
+    /// Replace file descriptors 1 and 2 of this (forked) process by the write end of a pipe or by the slave side of a pty whose
+    /// window size is the configured terminal size; what the library writes there is read back like for `pipe` / `pty`.
+    pub fn redirect_std(&mut self, pty: bool) {
+        use std::os::fd::{AsRawFd, FromRawFd};
+        if self.std_redirected { return; }
+        self.std_redirected = true;
+        if pty {
+            let (w, h) = { let g = self.spy.0.lock().unwrap(); (g.w, g.h) };
+            let (mut m, mut sl) = (0i32, 0i32);
+            let ws = libc::winsize { ws_row: h, ws_col: w, ws_xpixel: 0, ws_ypixel: 0 };
+            unsafe {
+                libc::openpty(&mut m, &mut sl, std::ptr::null_mut(), std::ptr::null(), &ws);
+                let mut t: libc::termios = std::mem::zeroed();
+                libc::tcgetattr(sl, &mut t);
+                libc::cfmakeraw(&mut t);
+                libc::tcsetattr(sl, libc::TCSANOW, &t);
+                let fl = libc::fcntl(m, libc::F_GETFL);
+                libc::fcntl(m, libc::F_SETFL, fl | libc::O_NONBLOCK);
+                libc::dup2(sl, 1); libc::dup2(sl, 2); libc::close(sl);
+                self.pty_master = Some(std::fs::File::from_raw_fd(m));
+            }
+        } else {
+            let mut fds = [0i32; 2];
+            unsafe {
+                libc::pipe(fds.as_mut_ptr());
+                let fl = libc::fcntl(fds[0], libc::F_GETFL);
+                libc::fcntl(fds[0], libc::F_SETFL, fl | libc::O_NONBLOCK);
+                libc::dup2(fds[1], 1); libc::dup2(fds[1], 2); libc::close(fds[1]);
+                self.pipe_r = Some(std::fs::File::from_raw_fd(fds[0]));
+            }
+        }
+        let _ = self.pipe_r.as_ref().map(|f| f.as_raw_fd());
+    }
     pub fn target(&mut self, t: &str, hz: u64) -> ProgressDrawTarget {
+        if let Some((which, pty)) = std_target(t) {
+            self.redirect_std(pty);
+            return match (which, hz) {
+                ("stdout", 0) => ProgressDrawTarget::stdout(),
+                ("stdout", _) => ProgressDrawTarget::stdout_with_hz(hz as u8),
+                (_, 0) => ProgressDrawTarget::stderr(),
+                (_, _) => ProgressDrawTarget::stderr_with_hz(hz as u8),
+            };
+        }
         match t {
             "hidden" => ProgressDrawTarget::hidden(),
             "spy_hz" => ProgressDrawTarget::term_like_with_hz(Box::new(self.spy.clone()), hz as u8),
@@ -162,12 +218,13 @@ impl World {
     pub fn new(cfg: &Value) -> World {
         let w = cfg["w"].as_u64().unwrap_or(80) as u16;
         let h = cfg["h"].as_u64().unwrap_or(24) as u16;
-        let mut world = World { spy: Spy::new(w, h), mp: None, bars: BTreeMap::new(), pipe_r: None, weak: BTreeMap::new(), pty_master: None, styles: BTreeMap::new() };
+        let mut world = World { spy: Spy::new(w, h), mp: None, bars: BTreeMap::new(), pipe_r: None, weak: BTreeMap::new(), pty_master: None, styles: BTreeMap::new(), std_redirected: false };
         if let Some(m) = cfg.get("mp").and_then(|m| m.as_object()) {
             let t = m.get("target").and_then(|x| x.as_str()).unwrap_or("spy").to_string();
             let hz = m.get("hz").and_then(|x| x.as_u64()).unwrap_or(0);
-            let tgt = world.target(&t, hz);
-            let mp = MultiProgress::with_draw_target(tgt);
+            // `default_*`: the constructor that picks the target itself (stderr)
+            let mp = if matches!(std_target(&t), Some(("default", _))) { let _ = world.target(&t, hz); MultiProgress::new() }
+                     else { let tgt = world.target(&t, hz); MultiProgress::with_draw_target(tgt) };
             if m.get("align").and_then(|x| x.as_str()) == Some("bottom") { mp.set_alignment(MultiProgressAlignment::Bottom); }
             world.mp = Some(mp);
         }
@@ -200,8 +257,14 @@ fn make_bar(world: &mut World, op: &Value) -> ProgressBar {
     let len = op.get("len").map(|l| if l.is_i64() && l.as_i64().unwrap() < 0 { None } else { Some(u64_of(l)) }).unwrap_or(Some(10));
     let t = op.get("target").and_then(|x| x.as_str()).unwrap_or("spy").to_string();
     let hz = op.get("hz").and_then(|x| x.as_u64()).unwrap_or(0);
-    let tgt = if op["op"] == "new" { world.target(&t, hz) } else { ProgressDrawTarget::hidden() };
-    let mut pb = ProgressBar::with_draw_target(len, tgt);
+    let mut pb = if op["op"] == "new" && matches!(std_target(&t), Some(("default", _))) {
+        // the constructors that pick the target themselves (stderr): new, new_spinner, no_length
+        let _ = world.target(&t, hz);
+        match len { Some(l) => ProgressBar::new(l), None => if op.get("b").and_then(|x| x.as_i64()).unwrap_or(0) % 2 == 1 { ProgressBar::new_spinner() } else { ProgressBar::no_length() } }
+    } else {
+        let tgt = if op["op"] == "new" { world.target(&t, hz) } else { ProgressDrawTarget::hidden() };
+        ProgressBar::with_draw_target(len, tgt)
+    };
     let mfirst = op.get("mfirst").and_then(|x| x.as_bool()).unwrap_or(false);
     if mfirst {
         // the texts before the tab width and the style: every builder order must expand consistently (C16)
@@ -347,10 +410,10 @@ pub fn run_history(hist: &Value, out: &mut dyn Write) {
     rec.insert("i".into(), json!(0));
     rec.insert("op".into(), json!("init"));
     let mpo = cfg.get("mp").and_then(|m| m.as_object());
-    let mphid = mpo.map(|m| m.get("target").and_then(|x| x.as_str()) == Some("hidden") || m.get("target").and_then(|x| x.as_str()) == Some("pipe")).unwrap_or(false);
+    let mphid = mpo.map(|m| target_hidden(m.get("target").and_then(|x| x.as_str()).unwrap_or("spy"))).unwrap_or(false);
     let align = mpo.and_then(|m| m.get("align")).and_then(|x| x.as_str()).unwrap_or("top").to_string();
     rec.insert("cfg".into(), json!({"w": cfg["w"].as_u64().unwrap_or(80), "h": cfg["h"].as_u64().unwrap_or(24), "multi": mpo.is_some(), "mphid": mphid, "align": align,
-        "pty": mpo.map(|m| m.get("target").and_then(|x| x.as_str()) == Some("pty")).unwrap_or(false),
+        "pty": mpo.map(|m| target_pty(m.get("target").and_then(|x| x.as_str()).unwrap_or("spy"))).unwrap_or(false),
         "hz": mpo.filter(|m| m.get("target").and_then(|x| x.as_str()) == Some("spy_hz")).and_then(|m| m.get("hz")).and_then(|x| x.as_u64()).unwrap_or(0),
         "x": cfg.get("x").cloned().unwrap_or(json!({}))}));
     rec.insert("calls".into(), calls);
